@@ -189,6 +189,14 @@ def annotations_ok(m: SdsModule, convert: bool) -> list[tuple[str, str, dict]]:
                 out.append(("off-verbatim", f"PythonName:{kind}", {"file": m.filename, "name": name}))
             if has and py == name:
                 out.append(("python-name-iff-differs", f"redundant:{kind}", {"file": m.filename, "name": name}))
+            # with the flag on the rendered name IS the converted Python name (the converter itself is judged at function level;
+            # enum declarations are left out: the statement lists enum members, not enums)
+            if convert and kind in ("class", "fun", "attr", "variant", "param"):
+                from safeds_stubgen.stubs_generator._helper import NamingConvention, _convert_name_to_convention
+
+                want = _convert_name_to_convention(py, NamingConvention.SAFE_DS, is_class_name=(kind == "class"))
+                if want and name != want:
+                    out.append(("rendered-name-is-converted-name", f"{kind}", {"file": m.filename, "python_name": py, "rendered": name, "converted": want}))
     return out
 
 
@@ -216,6 +224,9 @@ def run(rep: Report, tier: str, seed: int) -> None:
             else:
                 fs = {f"m{u}.py": f"class C{u}:\n    def {a}(self) -> int:\n        ...\n\n    def {b}(self) -> int:\n        ...\n"}
             units.append((f"collide:{pos}:{a}/{b}", f"collide:{pos}", fs, u))
+    # several lower-case classes of ONE other library: they share one placeholder stub file (first written, rest appended)
+    u = f"{next(uid):05d}"
+    units.append(("foreign:datetime-classes", "foreign:several-classes-of-one-module", {f"m{u}.py": f"import datetime\n\n\ndef f{u}(a: datetime.date, b: datetime.datetime, c: datetime.timedelta, d: datetime.time) -> None:\n    ...\n"}, u))
     specs = enumerate_trees("quick") if tier == "thorough" else enumerate_trees("quick")[::6]
     rep.rule = (
         f"function level: every legal identifier of length <= {6 if tier == 'quick' else 7} over {{a,b,A,1,_}} as class and as non-class name, dotted paths of 2-3 segments over 6 segment shapes;"
@@ -243,6 +254,14 @@ def run(rep: Report, tier: str, seed: int) -> None:
         def label_of(x) -> tuple[str, str]:
             return (x[0], x[1]) if isinstance(x, tuple) else ("tree:" + x.label, "tree:" + x.label.split("|")[0] + "|" + "|".join(x.label.split("|")[2:]))
 
+        # stub files that belong to no unit (placeholder stubs of other libraries) are judged on their own
+        tags = [tag_of(x) for x in us]
+        for convert, ix in ((False, ioff), (True, ion)):
+            for path, m in ix.modules.items():
+                if any(t in path or t in m.py_module for t in tags):
+                    continue
+                for clause, f2, detail in annotations_ok(m, convert):
+                    rep.violation(clause, f"{clause}:{f2}|placeholder-stub", {"file": path, **detail}, files=None, src_rel=PKG, opts=Opts(convert=convert))
         for x in us:
             tag = tag_of(x)
             label, feat = label_of(x)
